@@ -2,6 +2,7 @@
 species and cells are resolved through the network / space; the three sample-index lookups tile the time axis
 with the documented boundary and tie rules; the query time is converted first.  Does not decide returned values."""
 import ast
+import re
 
 from .. import pyfe, pya, pykind, ir
 from ..core import AnalysisError
@@ -114,7 +115,9 @@ def returns_with_facts(f):
             emit(node, value.body, cfg | frozenset(pya.atoms(c, True)))
             emit(node, value.orelse, cfg | frozenset(pya.atoms(c, False)))
             return
-        out.append((node, pysym.isrc(value, f) if value is not None else "None", cfg))
+        # a helper's local renamed at inlining (`i__h3`) is that local
+        un = lambda t_: re.sub(r"__h\d+", "", t_) if isinstance(t_, str) else t_
+        out.append((node, un(pysym.isrc(value, f)) if value is not None else "None", frozenset((un(t_), p_) for t_, p_ in cfg)))
 
     class C(pya.PyFacts):
         inline_fn = f
@@ -160,6 +163,10 @@ def rule_tiling(ctx, py):
         got = returns_with_facts(f)
         got = [g for g in got if g[1] != "None" or any(isinstance(t, str) and (" t" in t or "t " in t or "len(" in t)
                                                          for t, p in g[2])]
+        # an explicit `return None` that ends the function says what falling off the end says
+        if f.body and isinstance(f.body[-1], ast.Return) and (f.body[-1].value is None or (
+                isinstance(f.body[-1].value, ast.Constant) and f.body[-1].value.value is None)):
+            got = [g for g in got if g[0] is not f.body[-1]]
         ctx.need(len(got) == len(want), R, "%s: %d returns, expected %d" % (name, len(got), len(want)))
         for (node, expr, facts), (wexpr, wfacts) in zip(got, want):
             okk = expr == wexpr and all(x in facts for x in wfacts)
